@@ -368,11 +368,21 @@ func (dm *DMap) put(e *env) error {
 	}
 
 	// Redirect to the partition owner.
+	rc := dm.s.client.Get(member.String())
+	if e.putConfig.OnlyUpdateTTL {
+		// Expire must not be forwarded as a Put: it has no value to write.
+		expireCmd := protocol.NewPExpire(e.dmap, e.key, e.timeout).Command(dm.s.ctx)
+		err := rc.Process(e.ctx, expireCmd)
+		if err != nil {
+			return protocol.ConvertError(err)
+		}
+		return protocol.ConvertError(expireCmd.Err())
+	}
+
 	cmd, err := dm.writePutCommand(e)
 	if err != nil {
 		return err
 	}
-	rc := dm.s.client.Get(member.String())
 	err = rc.Process(e.ctx, cmd)
 	if err != nil {
 		return protocol.ConvertError(err)
